@@ -1,6 +1,7 @@
 //! `nvh` — verification harness for narwhal: translator + correspondence suites.
 //! Usage: nvh <suite> --seed N --cases N --out FILE [--steps N] [--only CASE]
 mod client_suite;
+mod lat_suite;
 mod oracle;
 mod pool_suite;
 mod reader_suite;
@@ -176,6 +177,23 @@ fn main() {
       let (seed, cases) = (a.seed, a.cases);
       let mut t = local.block_on(&rt, async move { writer_suite::run_suite(seed, cases).await });
       t.push_str(&format!("stats {{\"suite\":\"writer\",\"seed\":{},\"cases\":{}}}\n", a.seed, a.cases));
+      std::fs::write(&a.out, t).expect("write transcript");
+    },
+    "lat" => {
+      let (rt, local) = local_rt();
+      let (seed, cases, only, path) = (a.seed, a.cases, a.only, a.out.clone());
+      let out = local.block_on(&rt, async move { lat_suite::run_suite(seed, cases, only, path).await });
+      let mut t = out.transcript;
+      for (case, f) in &out.failures {
+        t.push_str(&format!("oracle-failure case={case} {f}\n"));
+      }
+      t.push_str(&format!(
+        "stats {{\"suite\":\"lat\",\"seed\":{},\"cases\":{},\"ops\":{},\"oracle_failures\":{}}}\n",
+        a.seed,
+        a.cases,
+        js_map(&out.stats),
+        out.failures.len()
+      ));
       std::fs::write(&a.out, t).expect("write transcript");
     },
     "translate" => {
